@@ -75,10 +75,15 @@ def mRowsLoop {F : Type} (o : FOps F) (rd : Reader) (maxI maxJ iSkip : Int) : Na
       mRowsLoop o rd maxI maxJ iSkip n (i + iSkip) fs'
     else .ok fs
 
+/-- `iSkip := (3 * maxI) / (4 * MAX_MODULES); if iSkip < MIN_SKIP || tryHarder { iSkip = MIN_SKIP }`
+    (tied to /repo by the regenerated kernel `Gen.KDetrest.multiRowStep`) -/
+def rowStep (maxI : Int) (tryHarder : Bool) : Int :=
+  let iSkip0 := Int.tdiv (3 * maxI) (4 * 97)
+  if iSkip0 < 3 ∨ tryHarder then 3 else iSkip0
+
 /-- the scan part of `FindMulti`: the possible centres -/
 def findMultiScan {F : Type} (o : FOps F) (rd : Reader) (maxI maxJ : Int) (tryHarder : Bool) : Res (List (FP F)) := do
-  let iSkip0 := Int.tdiv (3 * maxI) (4 * 97)
-  let iSkip := if iSkip0 < 3 ∨ tryHarder then 3 else iSkip0
+  let iSkip := rowStep maxI tryHarder
   let fs ← mRowsLoop o rd maxI maxJ iSkip (maxI.toNat + 1) (iSkip - 1) { centers := [], hasSkipped := false }
   return fs.centers
 
